@@ -886,6 +886,7 @@ impl Heap {
       final(self).wf(),                                                             // :wf_preserved
       final(self).preserves(old(self)),                                             // :frame_nothing_readable_changes
       repr_heap_id(r.0) is None,                                                    // :temp_name_is_inline
+      final(self).len() == old(self).len() + 1,                                     // :table_grows_by_one
       forall|i: int| 0 <= i < old(self).len() ==> final(self).str_pointer_table[i] == old(self).str_pointer_table[i],  // :frame_all_old_slots_identical
       final(self).module_reference_pointer_table == old(self).module_reference_pointer_table,   // :module_table_unchanged
       final(self).unmarked_module_references == old(self).unmarked_module_references,           // :gate_unchanged
@@ -1195,6 +1196,125 @@ fn thm_module_parts_and_static_strings_survive(heap: &mut Heap, parts: Vec<PStr>
   }
   assert(forall|j: int| 0 <= j < ps.len() ==> heap.live(#[trigger] ps[j]) && heap.read(ps[j]) == o.read(ps[j]));  // :module_reference_parts_survive_any_sweep
   assert(heap.live(hs) && heap.read(hs) == st@);              // :static_string_survives_any_sweep
+}
+
+// ------------------------------------------------------------------------------------------
+// "For any sequence of allocations, module-reference creations, marks and incremental sweeps": an
+// interpreter for ARBITRARY histories over the real methods.  The loop invariant is the induction the
+// property quantifies over: the table invariant holds after every step, every handle ever returned stays
+// in range, and a chosen handle keeps reading its string unless a sweep passed while it was neither
+// permanent nor marked.
+enum HistoryOp {
+  AllocString(String),
+  AllocStatic(&'static str),
+  Mark(usize),            // index into the handles obtained so far
+  MakeModuleReference(usize),
+  Sweep(usize),
+  AddUnmarkedModule(ModuleReference),
+  PopUnmarkedModule,
+  AllocTemp,
+}
+
+spec fn handle_in_range(h: &Heap, p: PStr) -> bool {
+  repr_heap_id(p.0) is Some ==> (repr_heap_id(p.0)->Some_0 as int) < h.len()
+}
+/// the watched handle may not be reclaimed by the next sweep
+spec fn protected(h: &Heap, p: PStr) -> bool {
+  match repr_heap_id(p.0) {
+    Some(id) => h.is_perm(id as int) || h.marked(id as int),
+    None => true,
+  }
+}
+
+fn thm_every_history(heap: &mut Heap, ops: Vec<HistoryOp>, first: String)
+  requires old(heap).wf(),
+    old(heap).len() + ops@.len() + 1 < 0xffff_ffff,
+    old(heap).module_reference_pointer_table.len() + ops@.len() < usize::MAX,
+    vstd::std_specs::hash::obeys_key_model::<&'static str>(),
+    vstd::std_specs::hash::obeys_key_model::<&'static [PStr]>(),
+    vstd::std_specs::hash::obeys_key_model::<ModuleReference>(),
+{
+  proof { broadcast use repr_cases; }
+  let ghost text = first@;
+  let watched = heap.alloc_string(first);
+  let mut handles: Vec<PStr> = Vec::new();
+  handles.push(watched);
+  // false once a sweep has passed while the watched handle was neither permanent nor marked
+  let ghost mut never_swept_unprotected = true;
+  let ghost len0 = heap.len();
+  let ghost mlen0 = heap.module_reference_pointer_table.len();
+  let mut i: usize = 0;
+  while i < ops.len()
+    invariant
+      0 <= i <= ops@.len(),
+      heap.wf(),
+      heap.len() <= len0 + i,
+      len0 + ops@.len() < 0xffff_ffff,
+      heap.module_reference_pointer_table.len() <= mlen0 + i,
+      mlen0 + ops@.len() < usize::MAX,
+      handles@.len() >= 1 && handles@[0] == watched,
+      forall|k: int| 0 <= k < handles@.len() ==> handle_in_range(heap, #[trigger] handles@[k]),
+      never_swept_unprotected ==> heap.live(watched) && heap.read(watched) == text,   // :watched_handle_reads_its_string_unless_swept_unprotected
+      vstd::std_specs::hash::obeys_key_model::<&'static str>(),
+      vstd::std_specs::hash::obeys_key_model::<&'static [PStr]>(),
+      vstd::std_specs::hash::obeys_key_model::<ModuleReference>(),
+    decreases ops@.len() - i,
+  {
+    let ghost before = *heap;
+    let ghost handles_before = handles@;
+    proof { broadcast use repr_cases; }
+    match &ops[i] {
+      HistoryOp::AllocString(s) => {
+        let p = heap.alloc_string(s.clone());
+        handles.push(p);
+      }
+      HistoryOp::AllocStatic(s) => {
+        let p = heap.alloc_str_internal(*s);
+        handles.push(p);
+      }
+      HistoryOp::Mark(k) => {
+        if *k < handles.len() {
+          heap.mark(handles[*k]);
+        }
+      }
+      HistoryOp::MakeModuleReference(k) => {
+        if *k < handles.len() {
+          let p = handles[*k];
+          // only live handles may become module-reference parts (precondition of the real method)
+          let live = match p.0.as_heap_id() {
+            Some(_) => false,   // liveness of a heap handle is not observable in exec code: skip
+            None => true,
+          };
+          if live {
+            let mut parts: Vec<PStr> = Vec::new();
+            parts.push(p);
+            let _ = heap.alloc_module_reference(parts);
+          }
+        }
+      }
+      HistoryOp::Sweep(w) => {
+        if *w <= 0xffff_ffff {
+          proof {
+            if !protected(heap, watched) && !heap.gate_closed() { never_swept_unprotected = false; }
+          }
+          heap.sweep(*w);
+        }
+      }
+      HistoryOp::AddUnmarkedModule(m) => { heap.add_unmarked_module_reference(*m); }
+      HistoryOp::PopUnmarkedModule => { let _ = heap.pop_unmarked_module_reference(); }
+      HistoryOp::AllocTemp => { let _ = heap.alloc_temp_str(); }
+    }
+    proof {
+      assert forall|k: int| 0 <= k < handles@.len() implies handle_in_range(heap, #[trigger] handles@[k]) by {
+        if k < handles_before.len() { assert(handle_in_range(&before, handles_before[k])); }
+      }
+      if never_swept_unprotected && repr_heap_id(watched.0) is Some {
+        let id = repr_heap_id(watched.0)->Some_0 as int;
+        assert(before.content(id) == Some(text));
+      }
+    }
+    i += 1;
+  }
 }
 
 } // verus!
